@@ -463,17 +463,34 @@ pub fn execute(ctx: &Ctx, trace: &Trace, opts: &ExecOpts) -> Outcome {
 
     if let Some(s) = sinfo {
         // ---------------- S2 ----------------
+        let is_raw = matches!(trace.producer, Producer::Raw { .. });
         let ec = match guard(|| encode_error(&s1, s.size)) {
             Ok(ec) => ec,
             Err(p) => {
+                if is_raw && prop == "C03" {
+                    // a data vector of the standard's length for this size cannot even be completed
+                    // to a codeword vector: the size's block structure is not the standard's
+                    o.violations.push(Violation {
+                        prop: "C03",
+                        class: format!("symbol_structure:encode_error_panic@{}", p.loc),
+                        detail: format!("{}: encode_error panicked on {} data codewords (the standard's count): {}", s.name, s1.len(), p.msg),
+                    });
+                }
                 o.producer_panic = Some(p.loc);
                 return o;
             }
         };
         sent = s1.clone();
         sent.extend_from_slice(&ec);
-        if sent.len() != s.n_total() {
+        if sent.len() != s.n_total() || ec.len() != s.blocks * s.k {
             o.other_events.push("catalogue_mismatch_total_codewords".into());
+            if prop == "C03" {
+                o.violations.push(Violation {
+                    prop: "C03",
+                    class: "symbol_structure:ec_codeword_count".into(),
+                    detail: format!("{}: encode_error produced {} EC codewords, the standard says {} blocks x {} = {}", s.name, ec.len(), s.blocks, s.k, s.blocks * s.k),
+                });
+            }
             return o;
         }
         s2f = sent.clone();
@@ -498,9 +515,14 @@ pub fn execute(ctx: &Ctx, trace: &Trace, opts: &ExecOpts) -> Outcome {
                         class: format!("render_panic@{}", p.loc),
                         detail: p.msg,
                     });
-                } else {
-                    o.producer_panic = Some(p.loc);
+                } else if prop == "C03" {
+                    o.violations.push(Violation {
+                        prop: "C03",
+                        class: format!("symbol_structure:render_panic@{}", p.loc),
+                        detail: format!("{}: a codeword vector of the standard's length could not be rendered: {}", s.name, p.msg),
+                    });
                 }
+                o.producer_panic = Some(p.loc);
                 return o;
             }
         }
